@@ -112,7 +112,7 @@ Fixpoint apply_data (c : cexpr) (p : polarity) (v : dv) {struct c} : outcome dv 
                  | CTDyn => Ok (DRec (with_contracts ++ right_only sp))   (* disjoint_merge *)
                  | CTVar (VExcludedOnly constr) =>
                      if negb (is_nil (conflicts constr (right_only sp))) then blame p
-                     else Ok (DRec with_contracts)
+                     else Ok (DRec (with_contracts ++ right_only sp))      (* disjoint_merge *)
                  | CTVar _ => Err OutOfFragment
                  end)
       | _ => blame p
